@@ -49,7 +49,7 @@ fn fit_json<T: HScalar, P: Prob<T>>(f: &FitOut<T, P>) -> Value {
 }
 
 /// run the operations; `out` collects one record per operation
-pub fn run_ops<T: HScalar, P: Prob<T>>(mut p: P, ops: &[Value], out: &mut Vec<Value>) {
+pub fn run_ops<T: HScalar, P: Prob<T>>(mut p: P, ops: &[Value], out: &mut Vec<Value>, ctx: &Value) {
     let mut i = 0;
     while i < ops.len() {
         let op = &ops[i];
@@ -66,7 +66,8 @@ pub fn run_ops<T: HScalar, P: Prob<T>>(mut p: P, ops: &[Value], out: &mut Vec<Va
                 out.push(json!({"op": "observe", "v": observe(&p, false, false)}));
             }
             "jac" => {
-                // a jacobian query is part of the protocol (it calls the model)
+                // a jacobian query is part of the protocol (it calls the model); it opens a new round
+                p.p_model().shared.lock().unwrap().last_was_d = false;
                 out.push(json!({"op": "jac", "v": opt(p.p_jac().as_ref(), mat_out)}));
             }
             "jac_quiet" => {
@@ -74,6 +75,11 @@ pub fn run_ops<T: HScalar, P: Prob<T>>(mut p: P, ops: &[Value], out: &mut Vec<Va
                 let j = p.p_jac();
                 set_enabled(&p, true);
                 out.push(json!({"op": "jac_quiet", "v": opt(j.as_ref(), mat_out)}));
+            }
+            "ref" => {
+                // a freshly built, fault-free problem of the same flavour at the given parameters
+                let a = vec_in::<T>(&op[1]);
+                out.push(json!({"op": "ref", "v": reference::<T>(ctx, &a)}));
             }
             "tables" => {
                 out.push(json!({"op": "tables", "v": tables(&p.p_model().inner)}));
@@ -95,7 +101,7 @@ pub fn run_ops<T: HScalar, P: Prob<T>>(mut p: P, ops: &[Value], out: &mut Vec<Va
             "into_seq" => {
                 let q = p.p_into_seq();
                 out.push(json!({"op": "into_seq"}));
-                return run_ops::<T, P::Seq>(q, &ops[i..], out);
+                return run_ops::<T, P::Seq>(q, &ops[i..], out, ctx);
             }
             "fit" => {
                 let solver = solver_from::<T>(&op[1]);
@@ -104,7 +110,7 @@ pub fn run_ops<T: HScalar, P: Prob<T>>(mut p: P, ops: &[Value], out: &mut Vec<Va
                 let mut v = fit_json(&f);
                 v["log_start"] = json!(log_before);
                 out.push(json!({"op": "fit", "v": v}));
-                return run_ops::<T, P::Seq>(f.problem, &ops[i..], out);
+                return run_ops::<T, P::Seq>(f.problem, &ops[i..], out, ctx);
             }
             "fit_stats" => {
                 let solver = solver_from::<T>(&op[1]);
@@ -148,7 +154,7 @@ pub fn run_ops<T: HScalar, P: Prob<T>>(mut p: P, ops: &[Value], out: &mut Vec<Va
                             }
                         };
                         out.push(json!({"op": "fit_stats", "v": v}));
-                        return run_ops::<T, P::Seq>(f.problem, &ops[i..], out);
+                        return run_ops::<T, P::Seq>(f.problem, &ops[i..], out, ctx);
                     }
                 }
             }
@@ -158,6 +164,34 @@ pub fn run_ops<T: HScalar, P: Prob<T>>(mut p: P, ops: &[Value], out: &mut Vec<Va
     // final: the complete protocol log
     let log = p.p_model().shared.lock().unwrap().log.clone();
     out.push(json!({"op": "end", "log": log_out(&log)}));
+}
+
+/// fresh problem (no faults, no history) of the same constructor at parameters `a`
+pub fn reference<T: HScalar>(case: &Value, a: &DVector<T>) -> Value {
+    let spec = ModelSpec::<T>::parse(&case["model"]);
+    let (wrap, _shared) = Wrap::new(AnyModel::new(&spec), FaultPlan::default());
+    let bops = parse_bops::<T>(&case["build"]);
+    let ctor = case["ctor"].as_str().unwrap();
+    macro_rules! go {
+        ($f:ident) => {
+            match $f(wrap, &bops) {
+                Err(e) => json!({"build": "err", "err": e}),
+                Ok(mut p) => {
+                    p.p_set(a);
+                    let mut o = observe(&p, true, true);
+                    o["set_ok"] = json!(p.p_params() == *a);
+                    o
+                }
+            }
+        };
+    }
+    match ctor {
+        "new" => go!(build_srhs_seq),
+        "new_parallel" => go!(build_srhs_par),
+        "mrhs" => go!(build_mrhs_seq),
+        "mrhs_parallel" => go!(build_mrhs_par),
+        _ => panic!("bad ctor"),
+    }
 }
 
 pub fn run_scenario_t<T: HScalar>(case: &Value, out: &mut Vec<Value>) -> Value {
@@ -174,7 +208,7 @@ pub fn run_scenario_t<T: HScalar>(case: &Value, out: &mut Vec<Value>) -> Value {
                 Err(e) => json!({"build": "err", "err": e, "log": log_out(&shared.lock().unwrap().log)}),
                 Ok(p) => {
                     let b = json!({"build": "ok", "log_after_build": shared.lock().unwrap().log.len()});
-                    run_ops(p, &ops, out);
+                    run_ops(p, &ops, out, case);
                     b
                 }
             }
